@@ -414,7 +414,8 @@ pub fn family_cond(_tier: Tier) -> Vec<PProblem> {
     }
     // shared reload resource: two vehicles draw from one stock
     for n in [5usize, 6] {
-        for stock in [4i64, 6] {
+        // stock 1 and 2: fewer units than the jobs beyond the first loads need (the stock binds)
+        for stock in [4i64, 6, 1, 2] {
             let mut s = shift(ShiftKind::Closed);
             s.reloads = vec![
                 PReload { loc: 0, duration: 4., times: vec![], tag: Some("r1".into()), resource_id: Some("stock".into()) },
@@ -422,6 +423,41 @@ pub fn family_cond(_tier: Tier) -> Vec<PProblem> {
             ];
             let mut p = base(format!("cond/resource/n{n}/stock{stock}"), deliveries(n), vec![vehicle_type("v", 2, &[2], vec![s])]);
             p.resources = vec![("stock".into(), vec![stock])];
+            out.push(p);
+        }
+    }
+    // shared stock x jobs of different size: exchanging a small job behind a reload by a big one draws more from the stock
+    for n in [5usize, 6] {
+        for stock in [1i64, 2, 3] {
+            let mut s = shift(ShiftKind::Closed);
+            s.reloads = vec![
+                PReload { loc: 0, duration: 4., times: vec![], tag: Some("r1".into()), resource_id: Some("stock".into()) },
+                PReload { loc: 0, duration: 4., times: vec![], tag: Some("r2".into()), resource_id: Some("stock".into()) },
+            ];
+            let mut jobs = deliveries(n);
+            for (i, j) in jobs.iter_mut().enumerate() {
+                j.tasks[0].demand = vec![1 + (i % 2) as i64];
+            }
+            let mut p = base(format!("cond/resource-sizes/n{n}/stock{stock}"), jobs, vec![vehicle_type("v", 2, &[3], vec![s])]);
+            p.resources = vec![("stock".into(), vec![stock])];
+            out.push(p);
+        }
+    }
+    // shared stock x two load dimensions: what is left of the stock and what a job needs are often INCOMPARABLE vectors
+    // (less in one dimension, more in the other)
+    for n in [5usize, 6] {
+        for stock in [[1i64, 3], [2, 3], [1, 1], [3, 1]] {
+            let mut s = shift(ShiftKind::Closed);
+            s.reloads = vec![
+                PReload { loc: 0, duration: 4., times: vec![], tag: Some("r1".into()), resource_id: Some("stock".into()) },
+                PReload { loc: 0, duration: 4., times: vec![], tag: Some("r2".into()), resource_id: Some("stock".into()) },
+            ];
+            let mut jobs = deliveries(n);
+            for (i, j) in jobs.iter_mut().enumerate() {
+                j.tasks[0].demand = vec![1, if i % 2 == 0 { 1 } else { 0 }];
+            }
+            let mut p = base(format!("cond/resource-multidim/n{n}/stock{}-{}", stock[0], stock[1]), jobs, vec![vehicle_type("v", 2, &[2, 2], vec![s])]);
+            p.resources = vec![("stock".into(), stock.to_vec())];
             out.push(p);
         }
     }
